@@ -46,7 +46,7 @@ def run(ctx):
     q = ctx.quick()
     hs = [[h[0]] for h in worlds(ctx, "resolve")] + [[h[0]] for h in worlds(ctx, "listener")]
     nfac = len(hs)
-    if nfac < 5000:
+    if nfac < 9000:
         raise Undecided("TLC enumerated only %d factor worlds" % nfac)
     for s in range(1 if q else 8):
         hs += walks(ctx, 150 if q else 1500, 4 if q else 6, 3 if q else 4, ctx.seed * 100 + s)
@@ -89,8 +89,9 @@ def run(ctx):
     core.write_evidence(ctx, [recs[("h0", 0)]], extra=dict(worlds=n, factor_worlds=nfac, histories=len(hs), judged=st, exhaustive_factors=True,
                         bounds="gateway resolution factor: 4 class situations x route kind x route ns x parentRef name {gw, foreign-class gw, missing} x "
                                "namespace {nil, g, r, x} x kind {nil, Gateway, Service} x group {nil, gateway group, other} (1296 worlds); listener factor: "
-                               "ns labels x protocol x kinds {empty, HTTPRoute, TCPRoute, other, both} x from {no allowedRoutes, no from, Same, All, Selector "
-                               "web/db, Selector nil} x route kind x route ns x sectionName {nil, L1, L2, nosuch} (4480 worlds); random walks mutate all "
+                               "ns labels x protocol x kinds {empty, HTTPRoute, TCPRoute, other, both, both with group \"\", both with the gateway group} x from "
+                               "{no allowedRoutes, no from, Same, All, Selector matchLabels web/db, Selector nil, matchExpressions In/NotIn, both} x route kind "
+                               "x route ns x sectionName {nil, L1, L2, nosuch} (8960 worlds); random walks mutate all "
                                "dimensions together, with two routes, two parentRefs, hostless listeners and 6 weighted backendRef lists"),
                         assumptions=["pairs whose route kind does not fit the listener protocol are not judged (the documentation leaves protocol out)",
                                      "namespace labels are fixed within a history (namespaces are not watched)",
